@@ -307,7 +307,22 @@ fn strategy() -> BoxedStrategy<Case12> {
         }),
     ];
     let op = prop_oneof![12 => (1usize..=4).prop_map(ROp::Enter), 1 => Just(ROp::Help), 1 => Just(ROp::Blank), 1 => Just(ROp::Clear)];
-    (prog, prop::collection::vec(op, 0..14)).prop_map(|(cmds, ops)| Case12 { cmds, ops }).boxed()
+    // variant: a ♡ evaluated early (falls through while no jump has happened yet), jumps later, and a `clear` in the middle of the session:
+    // after `clear` the second entry must behave like the first one
+    (prog, prop::collection::vec(op, 0..14), 0u8..4, any::<u16>(), any::<u16>(), prop::sample::select(vec!["♡", "♡?", "?♡", "♡!♥"]), 0usize..4)
+        .prop_map(|(mut cmds, mut ops, variant, a, b, area, d)| {
+            if variant == 0 {
+                let pos = pick_idx(a, cmds.len().min(3) + 1);
+                cmds.insert(pos, RCmd::with_area(0, 1, d, crate::refparse::parse_shape(area).unwrap()));
+                let at = pick_idx(b, ops.len() + 1);
+                ops.insert(at, ROp::Clear);
+                if at == 0 {
+                    ops.insert(0, ROp::Enter(cmds.len()));
+                }
+            }
+            Case12 { cmds, ops }
+        })
+        .boxed()
 }
 
 pub fn run(ctx: &Ctx, out: &mut Outcome) {
